@@ -118,6 +118,34 @@ class _Obj:
         return 0
 
 
+class _Acc:
+    """accumulator whose in-place addition differs observably from plain addition"""
+
+    def __init__(self, k, items=()):
+        self.k = k
+        self.items = list(items)
+
+    def __iadd__(self, other):
+        LOG.append(["iadd", self.k, enc(other)])
+        self.items.append(other)
+        return self
+
+    def __add__(self, other):
+        LOG.append(["add", self.k, enc(other)])
+        return _Acc(self.k, self.items + [other])
+
+
+def A(k):
+    LOG.append(["acc", k])
+    return _Acc(k)
+
+
+def SHADOW(v):
+    """what a module installs over a builtin between two calls"""
+    LOG.append(["shadow", enc(v)])
+    return -1
+
+
 def O(k):
     LOG.append(["obj", k])
     return _Obj(k)
@@ -224,6 +252,8 @@ def enc(v):
         return "error:" + type(v).__name__
     if isinstance(v, _Obj):
         return f"obj:{v._k}"
+    if isinstance(v, _Acc):
+        return f"acc:{v.k}:" + ",".join(enc(x) for x in v.items)
     if isinstance(v, (tuple, list)):
         return "[" + ",".join(enc(x) for x in v) + "]"
     if isinstance(v, type):
